@@ -5,7 +5,7 @@ from ..common import wint, wdy
 NONE = -99
 
 
-def obs_infer(fx, np, props, vals, sa, given, nw, nf, ni, cap, carrier='scalar', extra=None):
+def obs_infer(fx, np, props, vals, sa, given, nw, nf, ni, cap, carrier='scalar', extra=None, prior=False):
     """Fxp(values, signed=?, n_word=?, n_frac=?, n_int=?, n_word_max=cap); vals are exact Fractions"""
     base = {'k': 'infer', 'p': list(props), 'sa': sa, 'given': given, 'nw': nw, 'nf': nf, 'ni': ni, 'cap': cap, 'carrier': carrier,
             'route': 'ctor', 'v': [wdy(v) for v in vals], 'capcase': False}
@@ -13,7 +13,10 @@ def obs_infer(fx, np, props, vals, sa, given, nw, nf, ni, cap, carrier='scalar',
         base.update(extra)
     try:
         nums = [int(v) if v.denominator == 1 else float(v) for v in vals]
-        if carrier == 'scalar':
+        if carrier.startswith('np.'):            # NumPy scalar / array of a narrow dtype (values exactly representable there)
+            tp = getattr(np, carrier.split('.')[1])
+            obj = tp(nums[0]) if len(nums) == 1 else np.array(nums, dtype=tp)
+        elif carrier == 'scalar':
             obj = nums[0]
         elif carrier == 'ndarray':
             obj = np.array([float(v) for v in vals])
@@ -27,6 +30,14 @@ def obs_infer(fx, np, props, vals, sa, given, nw, nf, ni, cap, carrier='scalar',
         if nw != NONE: kw['n_word'] = nw
         if nf != NONE: kw['n_frac'] = nf
         if ni != NONE: kw['n_int'] = ni
+        if prior:
+            # history across objects: the same values were sized before under a coarse configuration (whatever the library may
+            # remember globally about them must not leak into this construction)
+            try:
+                fx.Fxp(obj, max_error=1.0e-2, n_word_max=6)
+                fx.Fxp(obj, max_error=0.3)
+            except Exception:
+                pass
         x = fx.Fxp(obj, n_word_max=cap, **kw)
         fl = common.flags_of(x)
         return dict(base, z=common.fmt_dict(x), c=[wint(c) for c in common.codes_of(x)], fo=[fl['o']], fu=[fl['u']], fi=[fl['i']])
